@@ -2,6 +2,7 @@ import OV.Model.C01SExp
 import OV.Model.C01Sem
 import OV.Drivers.Loop
 /-! Line-protocol driver for C01 and C02 (one model).
+    (`<func-sexp>` may be wrapped: `(withenv (closure (k <lit>)*) (globals (k <lit>)*) <func-sexp>)`)
     `C01 convert <func-sexp>`  → `ok <wf:true|false:why> <graph-sexp>` | `err <ExceptionClass>` | `bad-input`
     `C01 wf <graph-sexp>`      → `true` | `false <why>` | `bad-input`   (the verified checker `wfGraph`
                                   run on a graph parsed back from a proto of the real converter)
@@ -17,7 +18,7 @@ def handle (args : List String) : String :=
     match parseSExp (" ".intercalate rest) with
     | none => "bad-input"
     | some e =>
-      match decFunc e with
+      match decProgram e with
       | none => "bad-input"
       | some f =>
         match convert f with
@@ -34,14 +35,14 @@ def handle (args : List String) : String :=
     match parseSExp (" ".intercalate rest) with
     | none => "bad-input"
     | some e =>
-      match decFunc e with
+      match decProgram e with
       | none => "bad-input"
       | some f => if stableBlock f.body [] then "true" else "false"
   | "live" :: rest =>
     match parseSExp (" ".intercalate rest) with
     | none => "bad-input"
     | some e =>
-      match decFunc e with
+      match decProgram e with
       | none => "bad-input"
       | some f => " ".intercalate (liveInBlock f.body [])
   | _ => "bad-op"
